@@ -153,11 +153,19 @@ def _line_loop(ck, prog):
                     and it.context_expr.args and unparse(it.context_expr.args[0]) == f.params()[1] \
                     and isinstance(it.optional_vars, ast.Name):
                 fh = it.optional_vars.id
+                complete = (fh + ".readlines()", "list(%s)" % fh, fh + ".read().splitlines()", fh + ".read().split('\\n')", "%s.read().split('\\n')" % fh)
                 for t in s.body:
-                    if isinstance(t, ast.Assign) and isinstance(t.targets[0], ast.Name) \
-                            and unparse(t.value) in (fh + ".readlines()", "list(%s)" % fh) \
-                            and isinstance(loop.iter, ast.Name) and loop.iter.id == t.targets[0].id:
-                        src_ok = True
+                    if isinstance(t, ast.Assign) and isinstance(t.targets[0], ast.Name) and isinstance(loop.iter, ast.Name) and loop.iter.id == t.targets[0].id:
+                        v = t.value
+                        if unparse(v) in complete:
+                            src_ok = True
+                        elif isinstance(v, ast.Subscript) and isinstance(v.slice, ast.Slice) and unparse(v.value) in complete:
+                            # every line of the file minus a slice: a file without a final newline loses its last sequence line
+                            lo_, hi_ = v.slice.lower, v.slice.upper
+                            whole = (lo_ is None or unparse(lo_) == "0") and hi_ is None and v.slice.step is None
+                            ck.ob("PROV", construct, whole, expected="the loop runs over ALL lines of the file", found=unparse(v), slot="lines-source", where=f.loc(t),
+                                  note="the last piece of read().split('\\n') is empty only when the file ends in a newline")
+                            src_ok = True
     if not src_ok:
         # other ways to read the lines (iterating the handle, read().splitlines()) are not decided here
         direct = isinstance(loop.iter, ast.Name) and any(isinstance(s0, ast.With) and any(x is loop for x in ast.walk(s0)) and isinstance(s0.items[0].optional_vars, ast.Name)
